@@ -251,3 +251,144 @@ Section Counting.
     cbn [fold_left]. rewrite IH. rewrite add_error_count by exact He. reflexivity.
   Qed.
 End Counting.
+
+(** * Top-level keys of the rendering: exactly the first document-path elements of the errors that contribute a message *)
+Lemma sum_shift {A} (g : A -> nat) : forall l a,
+  fold_left (fun n c => n + g c) l a = a + fold_left (fun n c => n + g c) l O.
+Proof. induction l as [|y l IH]; intro a; cbn [fold_left]; [lia|]. rewrite IH, (IH (0 + g y)). lia. Qed.
+
+Lemma sum_pos {A} (g : A -> nat) : forall l,
+  0 < fold_left (fun n c => n + g c) l O <-> exists c, In c l /\ 0 < g c.
+Proof.
+  induction l as [|y l IH]; cbn [fold_left].
+  - split; [lia|intros [c [[] _]]].
+  - rewrite sum_shift. split.
+    + intro H. destruct (Nat.eq_dec (g y) 0) as [E|E].
+      * assert (H' : 0 < fold_left (fun n c => n + g c) l 0) by lia.
+        apply IH in H' as [c [Hc Hg]]. exists c. split; [right; exact Hc|exact Hg].
+      * exists y. split; [left; reflexivity|lia].
+    + intros [c [[<-|Hc] Hg]]; [lia|].
+      assert (0 < fold_left (fun n c0 => n + g c0) l 0) by (apply IH; exists c; split; assumption). lia.
+Qed.
+
+Lemma existsb_key_In k l : existsb (key_eqb k) l = true <-> In k l.
+Proof.
+  rewrite existsb_exists. split.
+  - intros [y [Hy E]]. apply key_eqb_eq in E. subst y. exact Hy.
+  - intro H. exists k. split; [exact H|apply key_eqb_refl].
+Qed.
+
+Lemma rt_insert_keys_iff k p m t k' :
+  In k' (rt_keys (rt_insert (k :: p) m t)) <-> In k' (rt_keys t) \/ k' = k.
+Proof.
+  rewrite rt_insert_keys. destruct (existsb (key_eqb k) (rt_keys t)) eqn:E.
+  - apply existsb_key_In in E. split; [intro H; left; exact H|intros [H| ->]; assumption].
+  - rewrite in_app_iff. cbn [In]. split; [intros [H|[H|[]]]; [left; exact H|right; symmetry; exact H]|
+                                         intros [H| ->]; [left; exact H|right; left; reflexivity]].
+Qed.
+
+Section Keys.
+  Variable F : facts.
+  Local Notation M := (f_masks F).
+
+  (* every document path met by the insertion starts with k *)
+  Fixpoint heads (k : key) (fuel : nat) (e : error) : Prop :=
+    match fuel with
+    | O => True
+    | S f => (exists p, e_dp e = k :: p) /\ Forall (heads k f) (child_errors M e)
+    end.
+
+  Lemma fold_insert_keys f kind pf k k' : forall cs t,
+    (forall c t, In c cs -> (In k' (rt_keys (insert_err F f kind pf c t)) <-> In k' (rt_keys t) \/ (k' = k /\ 0 < nmsgs F f kind c))) ->
+    (In k' (rt_keys (fold_left (fun t c => insert_err F f kind pf c t) cs t)) <->
+     In k' (rt_keys t) \/ (k' = k /\ 0 < fold_left (fun n c => n + nmsgs F f kind c) cs O)).
+  Proof.
+    induction cs as [|c cs IH]; intros t H; cbn [fold_left].
+    - split; [intro Hi; left; exact Hi|intros [Hi|[_ Hl]]; [exact Hi|lia]].
+    - rewrite IH by (intros c' t' Hc'; apply H; right; exact Hc').
+      rewrite (H c t (or_introl eq_refl)). rewrite (sum_shift _ cs (0 + nmsgs F f kind c)).
+      split.
+      + intros [[Hi|[Hk Hn]]|[Hk Hn]]; [left; exact Hi|right; split; [exact Hk|lia]|right; split; [exact Hk|lia]].
+      + intros [Hi|[Hk Hn]]; [left; left; exact Hi|].
+        destruct (Nat.eq_dec (nmsgs F f kind c) 0) as [E|E].
+        * right. split; [exact Hk|lia].
+        * left. right. split; [exact Hk|lia].
+  Qed.
+
+  Lemma insert_keys : forall fuel kind pf e t k k',
+    heads k fuel e ->
+    (In k' (rt_keys (insert_err F fuel kind pf e t)) <-> In k' (rt_keys t) \/ (k' = k /\ 0 < nmsgs F fuel kind e)).
+  Proof.
+    induction fuel as [|f IH]; intros kind pf e t k k' Hh.
+    - cbn [insert_err nmsgs]. split; [intro Hi; left; exact Hi|intros [Hi|[_ Hl]]; [exact Hi|lia]].
+    - cbn [heads] in Hh. destruct Hh as [[p Hp] Hch]. cbn [insert_err nmsgs].
+      assert (Hc : forall kind' pf' c t', In c (child_errors M e) ->
+                (In k' (rt_keys (insert_err F f kind' pf' c t')) <-> In k' (rt_keys t') \/ (k' = k /\ 0 < nmsgs F f kind' c))).
+      { intros kind' pf' c t' Hc. apply IH. rewrite Forall_forall in Hch. apply Hch. exact Hc. }
+      destruct (is_logic M e).
+      + rewrite (fold_insert_keys f 2 _ k k') by (intros c t' Hi; apply Hc; exact Hi).
+        rewrite Hp, rt_insert_keys_iff.
+        split; [intros [[Hi|Hk]|[Hk _]]; [left; exact Hi|right; split; [exact Hk|lia]|right; split; [exact Hk|lia]]|
+                intros [Hi|[Hk _]]; [left; left; exact Hi|left; right; exact Hk]].
+      + destruct (is_group M e).
+        * apply (fold_insert_keys f 1 _ k k'). intros c t' Hi. apply Hc. exact Hi.
+        * destruct kind as [|[|kk]].
+          -- destruct (has_message F (e_code e)).
+             ++ rewrite Hp, rt_insert_keys_iff. split; [intros [Hi|Hk]; [left; exact Hi|right; split; [exact Hk|lia]]|
+                                                        intros [Hi|[Hk _]]; [left; exact Hi|right; exact Hk]].
+             ++ split; [intro Hi; left; exact Hi|intros [Hi|[_ Hl]]; [exact Hi|lia]].
+          -- rewrite Hp, rt_insert_keys_iff. split; [intros [Hi|Hk]; [left; exact Hi|right; split; [exact Hk|lia]]|
+                                                     intros [Hi|[Hk _]]; [left; exact Hi|right; exact Hk]].
+          -- rewrite Hp, rt_insert_keys_iff. split; [intros [Hi|Hk]; [left; exact Hi|right; split; [exact Hk|lia]]|
+                                                     intros [Hi|[Hk _]]; [left; exact Hi|right; exact Hk]].
+  Qed.
+
+  Lemma rewrite_heads : forall fuel off e k p, e_dp e = k :: p -> heads k fuel (rewrite F fuel off e).
+  Proof.
+    induction fuel as [|f IH]; intros off e k p Hp; [exact I|].
+    cbn [heads]. split; [exists p; rewrite rewrite_dp; exact Hp|].
+    cbn [rewrite].
+    destruct (is_logic M e) eqn:El.
+    - rewrite child_errors_set_dp. destruct (is_group M e); [|constructor].
+      apply Forall_forall. intros c' Hc'. apply in_map_iff in Hc' as [c [<- _]].
+      eapply IH. rewrite set_dp_dp, Hp. cbn [app]. reflexivity.
+    - destruct (is_group M e) eqn:Eg.
+      + rewrite child_errors_set_dp, Eg.
+        apply Forall_forall. intros c' Hc'. apply in_map_iff in Hc' as [c [<- _]].
+        eapply IH. rewrite set_dp_dp, Hp. cbn [app]. reflexivity.
+      + unfold child_errors. rewrite Eg. constructor.
+  Qed.
+
+  Theorem add_error_keys e t k p k' :
+    e_dp e = k :: p ->
+    (In k' (rt_keys (add_error F t e)) <-> In k' (rt_keys t) \/ (k' = k /\ 0 < nmsgs F (S (err_depth e)) 0 e)).
+  Proof.
+    intro Hp. unfold add_error. rewrite (insert_keys _ _ _ _ _ k k') by (eapply rewrite_heads; exact Hp).
+    rewrite nmsgs_rewrite. reflexivity.
+  Qed.
+
+  (* the top-level keys of the errors property are exactly the first document-path elements of the errors that
+     contribute at least one message *)
+  Theorem render_keys : forall errs k',
+    Forall (fun e => e_dp e <> []) errs ->
+    (In k' (rt_keys (fst (render F errs))) <->
+     exists e p, In e errs /\ e_dp e = k' :: p /\ 0 < nmsgs F (S (err_depth e)) 0 e).
+  Proof.
+    intros errs k' H. unfold render. cbn [fst].
+    assert (G : forall t, In k' (rt_keys (fold_left (add_error F) errs t)) <->
+                          In k' (rt_keys t) \/ exists e p, In e errs /\ e_dp e = k' :: p /\ 0 < nmsgs F (S (err_depth e)) 0 e).
+    { induction H as [|e errs He _ IH]; intro t; cbn [fold_left].
+      - split; [intro Hi; left; exact Hi|intros [Hi|[e [p [[] _]]]]; exact Hi].
+      - rewrite IH. destruct (e_dp e) as [|k p] eqn:Ep; [contradiction|].
+        rewrite (add_error_keys e t k p k' Ep). split.
+        + intros [[Hi|[Hk Hn]]|[e' [p' [Hi [Hp Hn]]]]].
+          * left. exact Hi.
+          * right. exists e, p. subst k'. split; [left; reflexivity|split; [exact Ep|exact Hn]].
+          * right. exists e', p'. split; [right; exact Hi|split; assumption].
+        + intros [Hi|[e' [p' [[<-|Hi] [Hp Hn]]]]].
+          * left. left. exact Hi.
+          * left. right. rewrite Ep in Hp. injection Hp as -> _. split; [reflexivity|exact Hn].
+          * right. exists e', p'. split; [exact Hi|split; assumption]. }
+    rewrite G. change (rt_keys rt_empty) with (@nil key). cbn [In]. split; [intros [[]|Hx]; exact Hx|intro Hx; right; exact Hx].
+  Qed.
+End Keys.
